@@ -169,7 +169,10 @@ class C26(Prop):
             "run) and one real simplex 3-D md-grid with a fracture plane (gmsh), mortar sides and "
             "secondary replaced by non-matching triangle grids (uniform structured, graded tensor "
             "lattices, random Delaunay); the overlap areas of every match_2d call are captured and "
-            "handed to the model as data together with a Coq check of the C33 area contract.  Non-trivial = at least one replacement by a non-matching grid.")
+            "handed to the model as data together with a Coq check of the C33 area contract.  In every "
+            "dumped state also project_to_side_grids, sign_of_mortar_sides and cell_volumes are "
+            "compared with the model and the per-side statements are evaluated on the cells that "
+            "project_to_side_grids selects; most histories give the two sides different cell counts.  Non-trivial = at least one replacement by a non-matching grid.")
     trusted = ["the harness reads the inputs of the modelled functions off the real objects "
                "(primary_secondary matrix and face_duplicate_ind captured at MortarGrid construction, "
                "node coordinates of the side grids)",
@@ -324,7 +327,16 @@ class C26(Prop):
         return g
 
     def _dump(self, intf, k):
-        return {"mats": [_coords(getattr(intf, nm)()) for nm in NAMES],
+        projs, side_vols = [], []
+        for proj, g in intf.project_to_side_grids():
+            assert proj.shape[1] == intf.num_cells
+            projs.append({"shape": [int(x) for x in proj.shape], "ents": _coords(proj)})
+            side_vols.append([float(v) for v in g.cell_volumes])
+        return {"projs": projs, "side_vols": side_vols,
+                "sign": [float(v) for v in intf.sign_of_mortar_sides().diagonal()],
+                "cell_volumes": [float(v) for v in intf.cell_volumes],
+                "num_cells": int(intf.num_cells), "dim": int(intf.dim),
+                "mats": [_coords(getattr(intf, nm)()) for nm in NAMES],
                 "side_sizes": [int(g.num_cells) for g in intf.side_grids.values()],
                 "side_cells": [_grid_cells(g, k) if g.dim == 1 else [[0.0, 0.0]] * g.num_cells
                                for g in intf.side_grids.values()],
@@ -487,8 +499,36 @@ class C26(Prop):
         for sz in st["side_sizes"]:
             ranges.append(range(off, off + sz))
             off += sz
-        if off != nm:
+        if off != nm or st["num_cells"] != nm:
             return f"{tag}: side sizes {st['side_sizes']} do not add up to {nm} mortar cells"
+        # project_to_side_grids: one restriction per side, each picks the cells of that side
+        # (every mortar cell exactly once, side after side); per-side statements below are
+        # evaluated on the cells these operators select
+        if len(st["projs"]) != len(ranges):
+            return f"{tag}: project_to_side_grids yields {len(st['projs'])} operators for {len(ranges)} sides"
+        seen, op_rows = [], []
+        for si, (pj, rg) in enumerate(zip(st["projs"], ranges)):
+            if pj["shape"] != [len(rg), nm]:
+                return f"{tag}: project_to_side_grids side {si} has shape {pj['shape']}"
+            if [e[0] for e in pj["ents"]] != list(range(len(rg))) or any(e[2] != 1.0 for e in pj["ents"]):
+                return f"{tag}: project_to_side_grids side {si} is not a selection of one mortar cell per side cell"
+            cols = [e[1] for e in pj["ents"]]
+            seen += cols
+            op_rows.append(set(cols))
+            # restriction of the mortar cell volumes = cell volumes of the side grid
+            vol = [st["cell_volumes"][c] if c < len(st["cell_volumes"]) else None for c in cols]
+            if len(st["cell_volumes"]) != nm or any(
+                    v is None or not self._close(v, w, F(1, 10 ** 12)) for v, w in zip(vol, st["side_vols"][si])):
+                return f"{tag}: project_to_side_grids side {si} does not map cell_volumes to the side grid's cell volumes"
+        if seen != list(range(nm)):
+            return (f"{tag}: project_to_side_grids does not pick every mortar cell exactly once, "
+                    f"side after side (picked {seen})")
+        # sign_of_mortar_sides: -1 on the first (LEFT) side, +1 on the second
+        sg = st["sign"]
+        exp = [1.0] * nm if len(ranges) == 1 else [-1.0] * len(ranges[0]) + [1.0] * len(ranges[1])
+        if sg != exp:
+            return f"{tag}: sign_of_mortar_sides diagonal {sg} differs from {exp}"
+        ranges = op_rows
 
         def rowsum(m, i, cols=None):
             return sum(F(v) for r, c, v in m if r == i and (cols is None or c in cols))
@@ -522,7 +562,7 @@ class C26(Prop):
                 if not self._close(s, 1):
                     return f"{tag}: {name} column {m} sums to {float(s)}"
         for si, rg in enumerate(ranges):
-            rows = set(rg)
+            rows = set(rg)   # the mortar cells selected by project_to_side_grids for this side
             # integrated grid -> mortar, per side: unit column sums on covered entities
             m = mats["primary_to_mortar_int"]
             for f_ in sorted({c for r, c, v in m if r in rows}):
@@ -588,7 +628,9 @@ class C26(Prop):
     def _state(self, st):
         if "err" in st:
             return f"(inl {st['err']})"
-        return f"(inr {clist(st['mats'], _mat)})"
+        projs = clist([p["ents"] for p in st["projs"]], _mat)
+        vols = coption(st["cell_volumes"] if st["dim"] == 1 else None, lambda l: clist(l, cq))
+        return (f"(inr ({clist(st['mats'], _mat)}, {projs}, {clist(st['sign'], cq)}, {vols}))")
 
     def coq_case(self, case, res):
         n = self._prefix(res)
